@@ -34,6 +34,8 @@ mod task;
 mod time;
 #[cfg(excsn_fibre_verif)]
 pub use time::verif_clock;
+#[cfg(excsn_fibre_verif)]
+pub mod verif_sched;
 
 #[cfg(feature = "serde")]
 pub mod snapshot;
